@@ -154,6 +154,89 @@ Definition allow_of_slices (slices : list (list (option bytes))) : allowlist :=
 Definition striptags (slices : list (list (option bytes))) (forest : list hnode) : bytes :=
   strip (allow_of_slices slices) forest.
 
+(* ---- the same function with an accumulator ----
+
+   [clean] copies the text of a subtree once per enclosing level ("++" on the
+   left operand), as the Go code does with "res +=".  [clean_acc allow n acc]
+   is [clean allow n ++ acc] (Proofs/StripProofs.v, clean_acc_spec) computed
+   without copying; the judge runs it on forests that are thousands of levels
+   deep. *)
+Fixpoint clean_acc (allow : allowlist) (n : hnode) (acc : bytes) : bytes :=
+  match n with
+  | HElem name attrs kids =>
+    let body := fun tail =>
+      (fix go (l : list hnode) : bytes :=
+         match l with
+         | [] => tail
+         | k :: r => clean_acc allow k (go r)
+         end) kids in
+    match find_tag allow name with
+    | Some aa =>
+      "<" :: name ++ allowed_attrs aa attrs
+          ++ (if void name then [" "; "/"] else []) ++ ">" ::
+          body ((if void name then [] else "<" :: "/" :: name ++ [">"]) ++ acc)
+    | None => body acc
+    end
+  | HText s => esc6 s ++ acc
+  | HComment _ | HDoctype _ | HOther => acc
+  end.
+
+Fixpoint strip_acc (allow : allowlist) (forest : list hnode) : bytes :=
+  match forest with
+  | [] => []
+  | n :: r => clean_acc allow n (strip_acc allow r)
+  end.
+
+Definition striptags_fast (slices : list (list (option bytes))) (forest : list hnode) : bytes :=
+  strip_acc (allow_of_slices slices) forest.
+
+(* ---- a forest written down without nesting ----
+
+   The harness dumps the parse tree in document order as a flat list of
+   tokens (open element / close element / leaf), so that a tree of any depth
+   is a flat Gallina list literal; [build_forest] reads it back.
+   [flatten_forest] is the writer; build_forest (flatten_forest f) = f
+   (Proofs/StripProofs.v, build_flatten). *)
+Inductive ftok : Type :=
+| FOpen (name : bytes) (attrs : list (bytes * bytes))
+| FClose
+| FLeaf (n : hnode).
+
+(* stack: the open elements, innermost first, each with the children of its
+   parent read so far (latest first); cur: children of the innermost open
+   element read so far (latest first).  A close without an open is skipped,
+   an open without a close is closed at the end. *)
+Fixpoint unwind (stack : list (bytes * list (bytes * bytes) * list hnode))
+         (cur : list hnode) : list hnode :=
+  match stack with
+  | [] => rev cur
+  | (n, a, up) :: st => unwind st (HElem n a (rev cur) :: up)
+  end.
+
+Fixpoint build_go (toks : list ftok)
+         (stack : list (bytes * list (bytes * bytes) * list hnode))
+         (cur : list hnode) : list hnode :=
+  match toks with
+  | FOpen n a :: r => build_go r ((n, a, cur) :: stack) []
+  | FClose :: r =>
+    match stack with
+    | (n, a, up) :: st => build_go r st (HElem n a (rev cur) :: up)
+    | [] => build_go r [] cur
+    end
+  | FLeaf x :: r => build_go r stack (x :: cur)
+  | [] => unwind stack cur
+  end.
+
+Definition build_forest (toks : list ftok) : list hnode := build_go toks [] [].
+
+Fixpoint flatten (n : hnode) : list ftok :=
+  match n with
+  | HElem name attrs kids => FOpen name attrs :: flat_map flatten kids ++ [FClose]
+  | HText _ | HComment _ | HDoctype _ | HOther => [FLeaf n]
+  end.
+
+Definition flatten_forest (forest : list hnode) : list ftok := flat_map flatten forest.
+
 (* ------------------------------------------------------------------ *)
 (* S: what the property demands of the output                           *)
 
@@ -330,7 +413,10 @@ Fixpoint doc_chk (fuel : nat) (allow : allowlist) (s : bytes) : pres unit :=
           let r3 := snd (span (fun c => negb (name_end c)) r) in
           match allowed_ok_b allow n with
           | Some aa =>
-            match attrs_chk (S (length r3)) aa r3 with
+            (* the document's own fuel is enough for the attributes (r3 is a
+               suffix of r): no length is computed per tag, the checker is
+               linear in the size of the output *)
+            match attrs_chk f aa r3 with
             | POk r4 => doc_chk f allow r4
             | PRej => PRej
             | POut => POut
